@@ -96,7 +96,16 @@ def write_log(case):
             return n
 
     r = Rec()
-    sk.save(r)
+    # save() is handed a file object; should a tree under test treat its argument as a path
+    # (str(obj) + ".npz"), the stray file lands in the scratch directory, not in /verif
+    cwd = os.getcwd()
+    os.chdir(scratch_dir())
+    try:
+        sk.save(r)
+    except Exception:
+        return []
+    finally:
+        os.chdir(cwd)
     return r.states
 
 
